@@ -8,8 +8,9 @@ import torch.nn as nn
 from tensordict import TensorDict
 
 
-def _table_logits(seed, n, first, cur, mask):
-    key = (int(first) * 131 + int(cur)) * 1024 + sum((1 << j) for j, m in enumerate(mask) if m)
+def _table_logits(seed, n, first, cur, mask, tag=0.0):
+    # tag: the instance's first coordinate -> different instances of one batch get different logits
+    key = ((int(first) * 131 + int(cur)) * 1024 + sum((1 << j) for j, m in enumerate(mask) if m)) * 1009 + int(float(tag) * 1000003) % 1000003
     g = torch.Generator().manual_seed(seed * 7919 + key)
     return torch.randn(n, generator=g)
 
@@ -27,13 +28,13 @@ def _policy(n, seed):
 
         def forward(self, td, hidden, num_starts):
             Bp = td.batch_size[0]
-            out = torch.stack([_table_logits(seed, n, td["first_node"].reshape(Bp)[r], td["current_node"].reshape(Bp)[r], td["action_mask"][r].tolist()) for r in range(Bp)])
+            out = torch.stack([_table_logits(seed, n, td["first_node"].reshape(Bp)[r], td["current_node"].reshape(Bp)[r], td["action_mask"][r].tolist(), tag=td["locs"][r, 0, 0]) for r in range(Bp)])
             return out, td["action_mask"]
 
     return ConstructivePolicy(Enc(), Dec(), env_name="tsp")
 
 
-def _rederive(seed, n, seq, forced_first):
+def _rederive(seed, n, seq, forced_first, tag=0.0):
     avail, first, cur = [True] * n, None, None
     steps = []
     for t, a in enumerate(seq):
@@ -41,12 +42,12 @@ def _rederive(seed, n, seq, forced_first):
             if forced_first:
                 steps.append(0.0)
             else:
-                lg = _table_logits(seed, n, 0, 0, avail)
+                lg = _table_logits(seed, n, 0, 0, avail, tag)
                 steps.append(float(torch.log_softmax(lg.masked_fill(~torch.tensor(avail), -math.inf), -1)[a]))
             first = cur = a
             avail = [j != a for j in range(n)]
             continue
-        lg = _table_logits(seed, n, first, cur, avail)
+        lg = _table_logits(seed, n, first, cur, avail, tag)
         steps.append(float(torch.log_softmax(lg.masked_fill(~torch.tensor(avail), -math.inf), -1)[a]))
         avail[a] = False
         cur = a
@@ -72,13 +73,13 @@ def run_ll(p):
                 seq = acts[r].tolist()
                 if sorted(seq) != list(range(n)):
                     bad.append(f"seed {seed} row {r}: actions {seq} are not a permutation")
-                st = _rederive(seed, n, seq, multi)
+                st = _rederive(seed, n, seq, multi, tag=td["locs"][r % B, 0, 0])
                 if abs(sum(st) - float(ll[r])) > 1e-4:
                     bad.append(f"seed {seed} row {r}: returned log-likelihood {float(ll[r]):.5f} != sum of step log-probs of the returned actions {sum(st):.5f}")
             if not multi:
                 out2 = pol(td.clone(), env, phase="train", actions=acts, return_entropy=True, return_sum_log_likelihood=False)
                 for r in range(acts.shape[0]):
-                    st = _rederive(seed, n, acts[r].tolist(), False)
+                    st = _rederive(seed, n, acts[r].tolist(), False, tag=td["locs"][r % B, 0, 0])
                     if any(abs(a - float(b)) > 1e-4 for a, b in zip(st, out2["log_likelihood"][r])):
                         bad.append(f"seed {seed} row {r}: evaluation log-probs {out2['log_likelihood'][r].tolist()} != re-derived {st}")
                     if abs(float(out2["reward"][r]) - float(out["reward"][r])) > 1e-5:
@@ -115,10 +116,26 @@ def run_beam(p):
                 if sorted(seq) != list(range(n)):
                     bad.append(f"seed {seed} beam {r}: {seq} is not a complete tour")
                     continue
-                st = _rederive(seed, n, seq, True)
+                st = _rederive(seed, n, seq, True, tag=td["locs"][(r if p["select_best"] else r % B), 0, 0])
                 if abs(sum(st) - float(ll[r])) > 1e-4:
                     bad.append(f"seed {seed} beam {r}: log-likelihood {float(ll[r]):.5f} != what the policy assigns along {seq}: {sum(st):.5f}")
             if not p["select_best"]:
+                # independent reference beam search per instance: forced starts 0..W-1, then per step the W best expansions
+                for b in range(B):
+                    tag = td["locs"][b, 0, 0]
+                    beams = [([j % n], 0.0) for j in range(W)]
+                    for t in range(1, n):
+                        cand = []
+                        for seq_, sc in beams:
+                            for a in range(n):
+                                if a not in seq_:
+                                    cand.append((seq_ + [a], sum(_rederive(seed, n, seq_ + [a], True, tag))))
+                        cand.sort(key=lambda c: -c[1])
+                        beams = cand[:W]
+                    want = sorted(tuple(x[0]) for x in beams)
+                    got = sorted(tuple(acts[j * B + b].tolist()) for j in range(W))
+                    if want != got and len(cand) >= W and (len(cand) == W or cand[W - 1][1] - cand[W][1] > 1e-5 if len(cand) > W else True):
+                        bad.append(f"seed {seed} instance {b}: kept beams {got} are not the {W} highest-scoring expansions {want} of a step-by-step reference beam search")
                 for r1 in range(rows):
                     for r2 in range(r1 + 1, rows):
                         if r1 % B == r2 % B and acts[r1].tolist() == acts[r2].tolist():
